@@ -8,7 +8,7 @@ For EVERY table `T`, item list, fuel-free:
 * `parse1_fuel`                        — (d) the model's fuel never rejects an input
 * `parse1_preserves_statements`        — (b) the printed lines are the tree items in order (ids), the
                                           tree items are a sublist of the input, every input item that is
-                                          not droppable (comment / bare prefix line / type declaration)
+                                          not droppable (comment / bare prefix line / type declaration of a single name)
                                           is in the tree exactly once, and a printed statement line carries
                                           its input item unchanged
 * `fill_preserves`                     — the same for every block (`fill`), rest included
@@ -16,11 +16,15 @@ For EVERY table `T`, item list, fuel-free:
                                           hypotheses `nothing dropped` and `restep`
 * `end_print_only_opener`, `end_completion_idem` — (c)
 * witnesses (`Gen.tables`, replayed on the real code by `fv/cosim_one2.py`):
-  `enum_not_reparsable_witness`, `unnamed_program_two_rounds_witness`, `ignored_decl_dropped_witness`
+  `unnamed_program_two_rounds_witness`, `interface_blank_not_reparsable_witness` (the full statement of
+  (a) is still false),
+  `single_typing_decl_dropped_witness` (the exception of (b) is real), `typing_twice_assertion_witness`;
+  regression witnesses for repaired defects: `enum_roundtrip_regression` (cc438ae),
+  `typing_decl_kept_regression` (dbd6721)
 
 The full statement of (a),
     `parse1 T ic is = .ok t → ∃ t', parse1 T ic (items T (print1 T t)) = .ok t' ∧ print1 T t' = print1 T t`,
-is FALSE for the live tables: see the two witnesses.
+is FALSE for the live tables: the two witnesses above (before cc438ae also ENUM).
 -/
 namespace Fp.One2
 open Fp
@@ -112,6 +116,13 @@ example : PlainName (endName { row := 8, cname := "foo".toList }) ∧
     (endName { row := 8, cname := "foo".toList }).all isWord = true :=
   ⟨⟨by decide, by decide⟩, by decide⟩
 
+/-- the same for an ENUM definition (row 3; it has no name since cc438ae): `END ENUM` closes it again -/
+theorem restep_end_enum (c : Ctx) (it : Item) (hrow : c.row = 3) (hn : endName c = []) :
+    step Gen.tables c (reEnd it.id it.label (endText Gen.tables c)) = .close :=
+  enum_end_restep c it hrow hn
+
+example : endName { row := 3 } = [] := by decide
+
 /-! ## non-vacuity and witnesses over the live tables -/
 
 open Gen in
@@ -178,31 +189,76 @@ example : showRes (parse1 Gen.tables true [mk 1 "subroutine s" (oname := "s"), m
 example : showRes (parse1 Gen.tables true [mk 1 "subroutine s" (oname := "s"), mk 2 "if (a) then",
     mk 3 "end"]) = "nopattern 3 IfThen" := by decide +kernel
 
-/-- `(b)`-exception: `function f(x) / integer f, g / f = 1 / end function`: the declaration
-    (of `g` too) is not in the tree. -/
-def exIgnored : List Item :=
+/-- regression (dbd6721): `function f(x) / integer f, g / f = 1 / end function`: the declaration that
+    types the function stays in the tree for `g` (before the repair the whole statement was ignored and
+    the declaration of `g` lost); nothing is dropped, and the print is a fixpoint. -/
+def exTyping : List Item :=
   [mk 1 "function f(x)" (oname := "f"),
    { mk 2 "integer f, g" ["Integer"] with decls := ["f".toList, "g".toList] },
    mk 3 "f = 1" ["GeneralAssignment"], mk 4 "end function"]
-theorem ignored_decl_dropped_witness :
-    showForest (treeOf exIgnored) = " (1 3 4)" ∧ (flat (treeOf exIgnored)).length + 1 = exIgnored.length := by
+theorem typing_decl_kept_regression :
+    showForest (treeOf exTyping) = " (1 2 3 4)" ∧ (flat (treeOf exTyping)).length = exTyping.length
+    ∧ restep Gen.tables topCtx (treeOf exTyping) = true := by
+  decide +kernel
+example : ∃ t', parse1 Gen.tables true (items Gen.tables (print1 Gen.tables (treeOf exTyping))) = .ok t'
+    ∧ print1 Gen.tables t' = print1 Gen.tables (treeOf exTyping) :=
+  print1_parse1_fixpoint_partial Gen.tables true exTyping (treeOf exTyping)
+    (ok_treeOf exTyping (by decide +kernel)) (by decide +kernel) (by decide +kernel)
+
+/-- `(b)`-exception, still real: `function f(x) / integer f / f = 1 / end function`: a declaration of
+    the function name alone becomes the function's type (printed in the header `INTEGER FUNCTION f(x)`)
+    and is not a statement of the tree; the item is `droppable`. -/
+def exTypingOnly : List Item :=
+  [mk 1 "function f(x)" (oname := "f"),
+   { mk 2 "integer f" ["Integer"] with decls := ["f".toList] },
+   mk 3 "f = 1" ["GeneralAssignment"], mk 4 "end function"]
+theorem single_typing_decl_dropped_witness :
+    showForest (treeOf exTypingOnly) = " (1 3 4)"
+    ∧ (flat (treeOf exTypingOnly)).length + 1 = exTypingOnly.length
+    ∧ (exTypingOnly.map (droppable Gen.tables)) = [false, true, false, false] := by
   decide +kernel
 
-/-- C19 defect 1: `subroutine s / enum, bind(c) / enumerator :: a / end enum / end subroutine` is
-    accepted and printed as `ENUM __ENUM__ … END ENUM __ENUM__`, which the second round rejects:
-    the statement of the fixpoint theorem is false. -/
+/-- typing the function twice: `assert self.parent.typedecl is None` escapes (AssertionError), also when
+    the first declaration stayed in the tree -/
+theorem typing_twice_assertion_witness :
+    showRes (parse1 Gen.tables true
+      [mk 1 "function f(x)" (oname := "f"),
+       { mk 2 "integer f, g" ["Integer"] with decls := ["f".toList, "g".toList] },
+       { mk 3 "real f" ["Real"] with decls := ["f".toList] }, mk 4 "end function"]) = "assertion 3" := by
+  decide +kernel
+
+/-- regression (cc438ae): `subroutine s / enum, bind(c) / enumerator :: a / end enum / end subroutine`:
+    ENUM has no name and its own header (before the repair: `ENUM __ENUM__ … END ENUM __ENUM__`, rejected
+    by the second round); the END line is `END ENUM`, `restep` holds and the print is a fixpoint. -/
 def exEnum : List Item :=
   [mk 1 "subroutine s" (oname := "s"), mk 2 "enum, bind(c)", mk 3 "enumerator :: a" ["Enumerator"],
    mk 4 "end enum", mk 5 "end subroutine"]
-theorem enum_not_reparsable_witness :
-    linesOf exEnum = ["1;B;Subroutine;s;;", "2;B;Enum;__ENUM__;;ENUM __ENUM__", "3;S;Enumerator",
-      "4;E;END ENUM __ENUM__", "5;E;END SUBROUTINE s"]
-    ∧ restep Gen.tables topCtx (treeOf exEnum) = false
-    ∧ showRes (parse1 Gen.tables true (items Gen.tables (print1 Gen.tables (treeOf exEnum))))
-        = "nopattern 2 Subroutine" := by
+theorem enum_roundtrip_regression :
+    linesOf exEnum = ["1;B;Subroutine;s;;", "2;B;Enum;;;", "3;S;Enumerator", "4;E;END ENUM",
+      "5;E;END SUBROUTINE s"]
+    ∧ restep Gen.tables topCtx (treeOf exEnum) = true
+    ∧ linesOf (items Gen.tables (print1 Gen.tables (treeOf exEnum))) = linesOf exEnum := by
+  decide +kernel
+example : ∃ t', parse1 Gen.tables true (items Gen.tables (print1 Gen.tables (treeOf exEnum))) = .ok t'
+    ∧ print1 Gen.tables t' = print1 Gen.tables (treeOf exEnum) :=
+  print1_parse1_fixpoint_partial Gen.tables true exEnum (treeOf exEnum)
+    (ok_treeOf exEnum (by decide +kernel)) (by decide +kernel) (by decide +kernel)
+
+/-- C19 defect (open): a generic spec written with a blank, `interface assignment (=)` … `end interface`:
+    printed `END INTERFACE assignment (=)`; the second round compares the END name after removing blanks
+    with the kept name and rejects the line.  The statement of the fixpoint theorem is false. -/
+def exInterface : List Item :=
+  [mk 1 "subroutine s" (oname := "s"), mk 2 "interface assignment (=)" (oname := "assignment (=)"),
+   mk 3 "module procedure f" ["ModuleProcedure"], mk 4 "end interface", mk 5 "end subroutine s"]
+theorem interface_blank_not_reparsable_witness :
+    linesOf exInterface = ["1;B;Subroutine;s;;", "2;B;Interface;assignment (=);;", "3;S;ModuleProcedure",
+      "4;E;END INTERFACE assignment (=)", "5;E;END SUBROUTINE s"]
+    ∧ restep Gen.tables topCtx (treeOf exInterface) = false
+    ∧ showRes (parse1 Gen.tables true (items Gen.tables (print1 Gen.tables (treeOf exInterface))))
+        = "nopattern 4 Interface" := by
   decide +kernel
 
-/-- C19 defect 2: `program / x=1 / end` (unnamed main program): printed `PROGRAM __PROGRAM__ …
+/-- C19 defect (open): `program / x=1 / end` (unnamed main program): printed `PROGRAM __PROGRAM__ …
     END PROGRAM __PROGRAM__`, second round prints `PROGRAM __program__ … END PROGRAM __program__`
     (`get_line()` lower-cases the invented name): a fixpoint only after TWO rounds. -/
 def exProgram : List Item := [mk 1 "program", mk 2 "x=1" ["GeneralAssignment"], mk 3 "end"]
